@@ -14,6 +14,8 @@ package main
 //   crash - J        crash: tail keeps synced bytes + (unsynced - min(J, unsynced)) bytes
 //   recover          OpenWALForRead, ReadBytes until error; EOF -> Close, corrupted/unexpectedEOF -> CloseAndRepair
 //   read             OpenWALForRead, ReadBytes until error, Close (no repair)
+//   recoverc J       recovery dying inside CloseAndRepair after J file-system effects (c03_crashpoints.go)
+//   crashshift J K   writer dying inside Shift after J effects (c03_crashpoints.go)
 //   poke I OFF X     xor byte OFF of the I-th segment file (0 = head) with X (writer closed only)
 
 import (
@@ -533,6 +535,10 @@ func (r *c03Runner) Step(toks []string, o *Oracle) string {
 			}
 		}
 		return out
+	case "recoverc":
+		return r.stepRecoverC(toks, o)
+	case "crashshift":
+		return r.stepCrashShift(toks, o)
 	case "poke":
 		if len(toks) != 4 || r.ww != nil {
 			return "bad-op"
@@ -653,6 +659,10 @@ func c03CorruptionCase(g *Gen) {
 	if g.Intn(2) == 0 {
 		g.Emit("read")
 	}
+	if g.Intn(2) == 0 {
+		// the repair of a corrupted early segment removes later segments AND truncates: die in between
+		g.Emit("recoverc %d", g.Pick(0, 1, 1, 2, 3))
+	}
 	g.Emit("recover")
 	g.Emit("recover")
 	open()
@@ -704,8 +714,21 @@ func c03Gen(g *Gen) {
 			lastLen = n
 			g.Emit("w %s", hx(g.Bytes(n)))
 		}
+		forceRecoverC := false
 		crashCycle := func(arg string) {
-			g.Emit("crash %s", arg)
+			if g.Intn(6) == 0 {
+				// die inside Shift after J of its effects
+				g.Emit("crashshift %d %d", g.Pick(0, 1, 2, 3, 3, 4), g.Pick(0, 1, 7, 8, 9, g.Intn(60), g.Intn(5000)))
+			} else {
+				g.Emit("crash %s", arg)
+			}
+			if g.Intn(3) == 0 || forceRecoverC {
+				forceRecoverC = false
+				// recovery attempts that die inside CloseAndRepair after J effects
+				for i := g.Pick(1, 1, 2, 3); i > 0; i-- {
+					g.Emit("recoverc %d", g.Pick(0, 1, 1, 2, 3))
+				}
+			}
 			for i := g.Pick(1, 1, 1, 2); i > 0; i-- {
 				g.Emit("recover")
 			}
@@ -737,6 +760,14 @@ func c03Gen(g *Gen) {
 				if g.Intn(3) == 0 {
 					write()
 				}
+				crashCycle(c03CrashArg(g, lastLen))
+			case x < 86:
+				// torn record behind empty segments: CloseAndRepair has several segments to remove
+				for i := g.Pick(1, 2, 2, 3); i > 0; i-- {
+					g.Emit("shift")
+				}
+				write()
+				forceRecoverC = g.Intn(4) != 0
 				crashCycle(c03CrashArg(g, lastLen))
 			case x < 88:
 				// torn header only
